@@ -115,6 +115,13 @@ func genSpec(t *tape.Tape, o SpecOpts) *MsgSpec {
 		}
 		return true
 	}
+	// where the protected alg is left out (external data), some issuers put
+	// the algorithm into the unprotected bucket as a hint for the receiver
+	hint := func(l *Layer, alg int64, had bool) {
+		if !had && t.Bool(1, 3, "spec.alg.hint") && l.Unprot.lookup(refcose.LAlg) == nil {
+			l.Unprot = append(l.Unprot, KV{refcbor.Uint(refcose.LAlg), refcbor.Int(alg)})
+		}
+	}
 	lo := LayerOpts{MaxExtra: o.MaxExtra, Steer: true, Big: o.BigOK, Tagged: o.TaggedProtected}
 	if s.Kind == refcose.KSignTagged {
 		s.Layer = genLayer(t, lo) // body layer: usually no alg
@@ -131,19 +138,24 @@ func genSpec(t *tape.Tape, o SpecOpts) *MsgSpec {
 		for i := 0; i < n; i++ {
 			k := genKey(t, o.Cheap || n > 2)
 			slo := LayerOpts{MaxExtra: min(o.MaxExtra, 3), Steer: t.Bool(1, 4, "spec.sig.steer"), Tagged: o.TaggedProtected}
-			if algIn() {
+			had := algIn()
+			if had {
 				a := k.Alg
 				slo.Alg = &a
 			}
-			s.Signers = append(s.Signers, &SignerSpec{Layer: genLayer(t, slo), Key: k})
+			sl := genLayer(t, slo)
+			hint(&sl, k.Alg, had)
+			s.Signers = append(s.Signers, &SignerSpec{Layer: sl, Key: k})
 		}
 	} else {
 		s.Key = genKey(t, o.Cheap)
-		if algIn() {
+		had := algIn()
+		if had {
 			a := s.Key.Alg
 			lo.Alg = &a
 		}
 		s.Layer = genLayer(t, lo)
+		hint(&s.Layer, s.Key.Alg, had)
 	}
 	return s
 }
